@@ -294,6 +294,23 @@ def check(chk):
         [text(n) for n in walk(hms[0]) if tname(n) == 'DivNode' and getattr(n, 'operator', '/') == '/']
     chk.judge(not fl_, 'C07.width', ('cassandra/cython_utils.pyx', 'datetime_from_ms_timestamp', cu.line(hms[0])), 'datetime_from_ms_timestamp: days, seconds and microseconds by floor division of the millisecond count',
               'the compiled helper computes with floats (%s)' % ', '.join(fl_))
+    # ---- the deserializer of a type: user-named classes (UDTs) are never looked up by name; subclass tests go from the more specific class to its base
+    chk.rule('C07.lookup', 'find_deserializer: a UserType subclass is recognised before the lookup by class name (its name is the user\'s), and every subclass test precedes the test of its base class')
+    fd = [n for n in des.nodes() if tname(n) in ('CFuncDefNode', 'DefNode') and (fname(n) if tname(n) == 'CFuncDefNode' else n.name) == 'find_deserializer']
+    if len(fd) != 1:
+        raise AnalysisError('deserializers.pyx: find_deserializer not found')
+    conds = [text(c_.condition) for x_ in walk(fd[0]) if tname(x_) == 'IfStatNode' for c_ in x_.if_clauses]
+    def _pos(t_):
+        return conds.index(t_) if t_ in conds else None
+    by_name = [i_ for i_, t_ in enumerate(conds) if 'globals()' in t_ or 'classes' in t_]
+    udt = _pos('issubclass(cqltype, cqltypes.UserType)')
+    chk.judge(udt is not None and by_name and udt < min(by_name), 'C07.lookup', (DES, 'find_deserializer', des.line(fd[0])), 'user-defined types are recognised before the lookup by class name',
+              'the class of a UDT is named by the user: looked up by name first, a UDT called LongType / UUIDType / ListType is decoded by DesLongType / DesUUIDType / DesListType - the compiled '
+              'parser returns 17179869189 for LongType(a=5) (or fails) where the pure parser returns the UDT')
+    for sub_, base_ in (('UserType', 'TupleType'), ('DynamicCompositeType', 'CompositeType')):
+        a_, b_ = _pos('issubclass(cqltype, cqltypes.%s)' % sub_), _pos('issubclass(cqltype, cqltypes.%s)' % base_)
+        chk.judge(a_ is not None and b_ is not None and a_ < b_, 'C07.lookup', (DES, 'find_deserializer', des.line(fd[0])), '%s is tested before its base %s' % (sub_, base_),
+                  '%s is a subclass of %s: tested after it, its values are decoded by Des%s' % (sub_, base_, base_))
     # ---- narrowing
     nn = 0
     for rel in (DES, IOUTILS, OBJ):
